@@ -12,7 +12,7 @@ from harness import tlc
 from harness.pool import Pool
 
 CFG = "INIT Init\nNEXT Next\nCHECK_DEADLOCK FALSE\nINVARIANT ReadBack\nINVARIANT MalformedRejected\nINVARIANT SameEffect\n"
-DELTAS = [-0x200, -1, 0, 1, 0x200, 0x8000]
+DELTAS = [-0x200, -1, 0, 1, 0x200, 0x8000, 0x800000, 0xC00000]
 PLACEMENTS = ["first", "between", "block", "after", "reloc_rom", "reloc_ram", "macro", "macro2"]
 
 
